@@ -326,7 +326,9 @@ pub fn api_body(cfg: &PipeCfg, plan: &ApiPlan, w: &Workload) -> CreateResult {
     c.finalize().map_err(|e| format!("{e:#}"))
 }
 
-pub const MAX_STEPS: usize = 4_000_000;
+/// backstop only: a livelock is declared by the scheduler after NO_PROGRESS_STEPS steps without a
+/// progress event
+pub const MAX_STEPS: usize = 200_000_000;
 
 /// Execute a batch of specs under the simulator. Workloads are generated here (pure function of
 /// the spec) and returned alongside for the oracles.
